@@ -2,12 +2,13 @@ package objstl
 
 import (
 	"bufio"
-	"bytes"
 	"encoding/json"
 	"fmt"
 	"math"
 	"math/rand"
 	"os"
+	"path/filepath"
+	"sort"
 
 	"github.com/EliCDavis/polyform/formats/obj"
 	"github.com/EliCDavis/polyform/modeling"
@@ -35,20 +36,62 @@ type AMesh struct {
 // ObjSeeded: a "wr" case whose meshes are drawn by the seeded recorder
 // (arbitrary finite float64 values, sizes TLC does not enumerate).
 type ObjSeeded struct {
-	Seed    int64 `json:"seed"`
-	NMesh   int   `json:"nmesh"`
-	MaxTris int   `json:"maxtris"`
+	Seed    int64     `json:"seed"`
+	NMesh   int       `json:"nmesh"`
+	MaxTris int       `json:"maxtris"`
+	Sizes   []ObjSize `json:"sizes,omitempty"` // round 2: one entry per mesh fixes its shape (else drawn)
+	Edge    int       `json:"edge"`            // 1: boundary float values among the coordinates
+}
+
+// ObjSize: the size profile of one mesh (specs/ObjStlSizes.tla).
+type ObjSize struct {
+	NV  int  `json:"nv"`  // vertices
+	NT  int  `json:"nt"`  // triangles
+	Uv  bool `json:"uv"`  // has texture coordinates
+	Nrm bool `json:"nrm"` // has normals
+	NM  int  `json:"nm"`  // material ranges (0: none)
+	// NameLen > 0: the mesh's name has this many characters (line length of its "g" statement)
+	NameLen int `json:"namelen"`
+}
+
+// longName: a name of n characters without blanks.
+func longName(n int, salt int) string {
+	b := make([]byte, n)
+	for i := range b {
+		b[i] = byte('a' + (i*7+salt)%26)
+	}
+	return string(b)
+}
+
+// TextProfile: the size profile of an OBJ text ("ld" case): per group the
+// number of distinct corners, the number of faces and the face syntax.
+type TextProfile struct {
+	Seed   int64       `json:"seed"`
+	Groups []TextGroup `json:"groups"`
+}
+
+type TextGroup struct {
+	NV  int `json:"nv"`
+	NF  int `json:"nf"`
+	Syn int `json:"syn"` // 0 v, 1 v/vt, 2 v//vn, 3 v/vt/vn
+	// NameLen > 0: the group's name has this many characters
+	NameLen int `json:"namelen"`
 }
 
 type ObjCase struct {
-	K      string     `json:"k"` // "wr" | "ld"
-	Tag    string     `json:"tag"`
-	Enc    string     `json:"enc"`
-	Q      int        `json:"q"`
-	Meshes []AMesh    `json:"meshes,omitempty"`
-	Seeded *ObjSeeded `json:"seeded,omitempty"`
-	Gen    []Stmt     `json:"gen,omitempty"`
-	Style  int        `json:"style"`
+	K      string       `json:"k"` // "wr" | "ld"
+	Tag    string       `json:"tag"`
+	Enc    string       `json:"enc"`
+	Q      int          `json:"q"`
+	Meshes []AMesh      `json:"meshes,omitempty"`
+	Seeded *ObjSeeded   `json:"seeded,omitempty"`
+	Gen    []Stmt       `json:"gen,omitempty"`
+	Style  int          `json:"style"`
+	Text   *TextProfile `json:"text,omitempty"` // "ld": the statements are built from this profile
+	Cid    *int         `json:"cid,omitempty"`  // the case's number in the run it was recorded in (replays keep it)
+	Io     int          `json:"io"`             // reader variant (iomodes.go)
+	Wio    int          `json:"wio"`            // writer variant
+	Rep    int          `json:"rep"`            // > 1: every call is made this many times on the same input, the last result counts
 }
 
 // ---- projections -----------------------------------------------------------
@@ -121,23 +164,33 @@ func projSrc(name string, m modeling.Mesh, enc Enc) SrcMesh {
 
 func projObs(name string, m modeling.Mesh, enc Enc) ObsMesh {
 	p := ObsMesh{Name: name, Idx: projIdx(m), Pos: [][]int{}, Uv: [][]int{}, Nrm: [][]int{}, Mats: projMats(m)}
+	if len(p.Idx) > capIdx {
+		p.Idx = p.Idx[:capIdx]
+		capHit = true
+	}
+	lim := func(n int) int {
+		if n > capIdx {
+			return capIdx
+		}
+		return n
+	}
 	if m.HasFloat3Attribute(modeling.PositionAttribute) {
 		a := m.Float3Attribute(modeling.PositionAttribute)
-		for i := 0; i < a.Len(); i++ {
+		for i := 0; i < lim(a.Len()); i++ {
 			v := a.At(i)
 			p.Pos = append(p.Pos, enc.ObsVec(v.X(), v.Y(), v.Z()))
 		}
 	}
 	if m.HasFloat2Attribute(modeling.TexCoordAttribute) {
 		a := m.Float2Attribute(modeling.TexCoordAttribute)
-		for i := 0; i < a.Len(); i++ {
+		for i := 0; i < lim(a.Len()); i++ {
 			v := a.At(i)
 			p.Uv = append(p.Uv, enc.ObsVec(v.X(), v.Y()))
 		}
 	}
 	if m.HasFloat3Attribute(modeling.NormalAttribute) {
 		a := m.Float3Attribute(modeling.NormalAttribute)
-		for i := 0; i < a.Len(); i++ {
+		for i := 0; i < lim(a.Len()); i++ {
 			v := a.At(i)
 			p.Nrm = append(p.Nrm, enc.ObsVec(v.X(), v.Y(), v.Z()))
 		}
@@ -194,9 +247,10 @@ func buildLattice(a AMesh, enc Enc, mats matTable) modeling.Mesh {
 }
 
 // randomReal draws finite float64 values of several kinds: float32
-// representable, generic doubles, small integers, tiny and large magnitudes.
+// representable, generic doubles, small integers, tiny and large magnitudes
+// (down to the float32 subnormals, up to 1e37), raw float32 bit patterns.
 func randomReal(r *rand.Rand) float64 {
-	switch r.Intn(6) {
+	switch r.Intn(7) {
 	case 0:
 		return float64(r.Intn(41) - 20)
 	case 1:
@@ -207,8 +261,41 @@ func randomReal(r *rand.Rand) float64 {
 		return (r.Float64() - 0.5) * math.Pow(10, float64(r.Intn(30)-20))
 	case 4:
 		return float64(math.Float32frombits(uint32(r.Int63())&0x7fffffff%0x7f000000)) * float64(1-2*r.Intn(2))
+	case 5:
+		return (r.Float64() - 0.5) * math.Pow(10, float64(r.Intn(83)-45))
 	}
 	return r.Float64()
+}
+
+// edgeValues: boundary values of the float32 format and of the float64 ->
+// float32 rounding. All are finite and within the float32 range.
+var edgeValues = []float64{
+	0, math.Copysign(0, -1),
+	math.MaxFloat32, -math.MaxFloat32,
+	math.SmallestNonzeroFloat32, -math.SmallestNonzeroFloat32, // smallest subnormal
+	float64(math.Float32frombits(0x00800000)), // smallest normal
+	float64(math.Float32frombits(0x007fffff)), // largest subnormal
+	float64(math.Float32frombits(0x7f7ffffe)),
+	1, -1, float64(math.Float32frombits(0x3f800001)), float64(math.Float32frombits(0x3f7fffff)), // 1 +- ulp
+	1 + 1.0/(1<<24), 1 + 3.0/(1<<24), // exactly half way between two float32 values (ties)
+	16777216, 16777217, 16777219, -16777217, // 2^24 and integers float32 cannot hold
+	0.1, -0.1, 1.0 / 3, 2.0 / 3, 1e-45, 7e-46, 1e-46, 1e-300, // decimal fractions; below the subnormals
+	1e38, 3.4e38, 1e-38, 1.17549435e-38, 65504, 65536, 0.5, 1024, 1e10, 123456789,
+}
+
+// edgeReal draws a boundary value; nonFinite adds NaN and the infinities
+// (binary formats only: text formats do not define them).
+func edgeReal(r *rand.Rand, nonFinite bool) float64 {
+	if nonFinite && r.Intn(6) == 0 {
+		switch r.Intn(3) {
+		case 0:
+			return math.NaN()
+		case 1:
+			return math.Inf(1)
+		}
+		return math.Inf(-1)
+	}
+	return edgeValues[r.Intn(len(edgeValues))]
 }
 
 func buildSeeded(s ObjSeeded) []obj.ObjMesh {
@@ -217,40 +304,97 @@ func buildSeeded(s ObjSeeded) []obj.ObjMesh {
 	names := []string{"body", "left wheel", "body", "x1", "roof", "Mesh.001"}
 	matNames := []string{"red", "blue", "<nil>", "steel", "red"}
 	out := []obj.ObjMesh{}
-	for i := 0; i < s.NMesh; i++ {
-		nt := r.Intn(s.MaxTris + 1)
-		if r.Intn(4) > 0 && nt == 0 {
-			nt = 1 + r.Intn(s.MaxTris)
+	real := func() float64 {
+		if s.Edge > 0 && r.Intn(3) == 0 {
+			return edgeReal(r, false)
 		}
-		nv := 3 * nt
-		if nt > 0 && r.Intn(2) == 0 {
-			nv = 3 + r.Intn(2*nt+1) // welded to some degree
+		return randomReal(r)
+	}
+	nmesh := s.NMesh
+	if len(s.Sizes) > 0 {
+		nmesh = len(s.Sizes)
+	}
+	for i := 0; i < nmesh; i++ {
+		var nt, nv, nm int
+		var hasUv, hasN bool
+		if len(s.Sizes) > 0 {
+			z := s.Sizes[i]
+			nt, nv, nm, hasUv, hasN = z.NT, z.NV, z.NM, z.Uv, z.Nrm
+		} else {
+			nt = r.Intn(s.MaxTris + 1)
+			if r.Intn(4) > 0 && nt == 0 {
+				nt = 1 + r.Intn(s.MaxTris)
+			}
+			nv = 3 * nt
+			if nt > 0 && r.Intn(2) == 0 {
+				nv = 3 + r.Intn(2*nt+1) // welded to some degree
+			}
 		}
 		idx := make([]int, 3*nt)
 		for k := range idx {
 			idx[k] = r.Intn(nv)
 		}
+		if len(s.Sizes) > 0 && nv >= 3 {
+			// every vertex is a corner of some face when there are enough corners (a line that is
+			// written twice or dropped then shifts a corner that is looked at)
+			for k := range idx {
+				if k < nv {
+					idx[k] = k
+				}
+			}
+			r.Shuffle(len(idx)/3, func(a, b int) {
+				for c := 0; c < 3; c++ {
+					idx[3*a+c], idx[3*b+c] = idx[3*b+c], idx[3*a+c]
+				}
+			})
+		}
 		m := modeling.NewTriangleMesh(idx)
 		pos := make([]vector3.Float64, nv)
 		for k := range pos {
-			pos[k] = vector3.New(randomReal(r), randomReal(r), randomReal(r))
+			pos[k] = vector3.New(real(), real(), real())
 		}
 		m = m.SetFloat3Attribute(modeling.PositionAttribute, pos)
-		if r.Intn(2) == 0 {
+		if len(s.Sizes) == 0 {
+			hasUv = r.Intn(2) == 0
+		}
+		if hasUv {
 			uv := make([]vector2.Float64, nv)
 			for k := range uv {
-				uv[k] = vector2.New(randomReal(r), randomReal(r))
+				uv[k] = vector2.New(real(), real())
 			}
 			m = m.SetFloat2Attribute(modeling.TexCoordAttribute, uv)
 		}
-		if r.Intn(2) == 0 {
+		if len(s.Sizes) == 0 {
+			hasN = r.Intn(2) == 0
+		}
+		if hasN {
 			n := make([]vector3.Float64, nv)
 			for k := range n {
-				n[k] = vector3.New(randomReal(r), randomReal(r), randomReal(r))
+				n[k] = vector3.New(real(), real(), real())
 			}
 			m = m.SetFloat3Attribute(modeling.NormalAttribute, n)
 		}
-		if nt > 0 && r.Intn(3) > 0 {
+		if len(s.Sizes) > 0 {
+			if nm > nt {
+				nm = nt
+			}
+			if nm > 0 {
+				// nm ranges that cover the nt triangles exactly
+				cuts := r.Perm(nt - 1)[:nm-1]
+				sort.Ints(cuts)
+				mm := []modeling.MeshMaterial{}
+				prev := 0
+				for j := 0; j < nm; j++ {
+					end := nt
+					if j < nm-1 {
+						end = cuts[j] + 1
+					}
+					mm = append(mm, modeling.MeshMaterial{PrimitiveCount: end - prev, Material: mats.get(matNames[(i+j+int(s.Seed&3))%len(matNames)])})
+					prev = end
+				}
+				m = m.SetMaterials(mm)
+			}
+		} else if nt > 0 && r.Intn(3) > 0 {
 			left := nt
 			mm := []modeling.MeshMaterial{}
 			for left > 0 {
@@ -260,7 +404,11 @@ func buildSeeded(s ObjSeeded) []obj.ObjMesh {
 			}
 			m = m.SetMaterials(mm)
 		}
-		out = append(out, obj.ObjMesh{Name: names[(i+int(s.Seed))%len(names)], Mesh: m})
+		name := names[(i+int(s.Seed))%len(names)]
+		if len(s.Sizes) > 0 && s.Sizes[i].NameLen > 0 {
+			name = longName(s.Sizes[i].NameLen, i)
+		}
+		out = append(out, obj.ObjMesh{Name: name, Mesh: m})
 	}
 	return out
 }
@@ -276,6 +424,7 @@ type wrLine struct {
 	Rerr  string    `json:"rerr"`
 	Rd    []ObsMesh `json:"rd"`
 	Note  string    `json:"note"`
+	Io    string    `json:"io"`
 }
 
 type ldLine struct {
@@ -288,14 +437,24 @@ type ldLine struct {
 	Werr   string    `json:"werr"`
 	Stmts2 []Stmt    `json:"stmts2"`
 	Note   string    `json:"note"`
+	Io     string    `json:"io"`
 }
 
-func readBack(text []byte, enc Enc) (string, string, []ObsMesh, []obj.ObjMesh) {
+// readBack gives the text to obj.ReadMesh through the reader variant. RdFile:
+// obj.Load(path) of a file holding the text (path != "": the file is already
+// there, written by obj.Save together with its material library).
+func readBack(text []byte, enc Enc, mode int, path string) (string, string, []ObsMesh, []obj.ObjMesh) {
 	var got []obj.ObjMesh
 	msg, detail := guard(func() error {
-		var err error
-		got, _, err = obj.ReadMesh(bytes.NewReader(text))
-		return err
+		return repeat(func() error {
+			var err error
+			if mode == RdFile {
+				got, err = obj.Load(path)
+			} else {
+				got, _, err = obj.ReadMesh(wrapReader(text, mode))
+			}
+			return err
+		})
 	})
 	rd := []ObsMesh{}
 	if msg != "" {
@@ -314,17 +473,48 @@ func readBack(text []byte, enc Enc) (string, string, []ObsMesh, []obj.ObjMesh) {
 	return "", "", rd, got
 }
 
-// writeOut calls the writer; mtl is its materialFile argument ("" or a file
-// name: the text then starts with mtllib / o lines, which a reader must skip).
-func writeOut(meshes []obj.ObjMesh, mtl string) (string, string, []byte) {
-	var buf bytes.Buffer
+// writeOut calls the writer with the writer variant; mtl is its materialFile
+// argument ("" or a file name: the text then starts with mtllib / o lines,
+// which a reader must skip). savePath != "": a single mesh goes through
+// obj.Save(savePath) (unnamed) or obj.SaveAll(savePath, {name: mesh}) instead
+// (they choose the material file themselves) and the text is what the file holds.
+func writeOut(meshes []obj.ObjMesh, mtl string, mode int, savePath string) (string, string, []byte) {
+	var text []byte
 	msg, detail := guard(func() error {
-		if len(meshes) == 1 && meshes[0].Name == "" {
-			return obj.WriteMesh(meshes[0].Mesh, mtl, &buf)
+		if savePath != "" {
+			err := repeat(func() error { // the same path again: Save replaces the file
+				if meshes[0].Name == "" {
+					return obj.Save(savePath, meshes[0].Mesh)
+				}
+				// a map of one: SaveAll's mesh order is the map's, only a single entry is deterministic
+				return obj.SaveAll(savePath, map[string]modeling.Mesh{meshes[0].Name: meshes[0].Mesh})
+			})
+			if err != nil {
+				return err
+			}
+			b, rerr := os.ReadFile(savePath)
+			if rerr != nil {
+				infra(rerr)
+			}
+			text = b
+			return nil
 		}
-		return obj.WriteMeshes(meshes, mtl, &buf)
+		return repeat(func() error {
+			sk := newSink(mode)
+			var err error
+			if len(meshes) == 1 && meshes[0].Name == "" {
+				err = obj.WriteMesh(meshes[0].Mesh, mtl, sk.W)
+			} else {
+				err = obj.WriteMeshes(meshes, mtl, sk.W)
+			}
+			if err != nil {
+				return err
+			}
+			text, err = sk.Bytes()
+			return err
+		})
 	})
-	return msg, detail, buf.Bytes()
+	return msg, detail, text
 }
 
 // mtlFor varies the writer's materialFile configuration with the case number.
@@ -333,6 +523,28 @@ func mtlFor(id int) string {
 		return "scene.mtl"
 	}
 	return ""
+}
+
+func objIoName(c ObjCase) string {
+	return fmt.Sprintf("%s/%s/x%d", readerModeName(c.Io), writerModeName(c.Wio), c.Rep)
+}
+
+// writeMtl: obj.Load insists on the material libraries a text names, and takes
+// every material of the meshes from them (by name). The harness therefore puts
+// the library next to the text, written by the package's own WriteMaterials.
+func writeMtl(path string, meshes []obj.ObjMesh) (string, string) {
+	return guard(func() error {
+		all := []modeling.MeshMaterial{}
+		for _, m := range meshes {
+			all = append(all, m.Mesh.Materials()...)
+		}
+		f, err := os.Create(path)
+		if err != nil {
+			infra(err)
+		}
+		defer f.Close()
+		return obj.WriteMaterials(all, f)
+	})
 }
 
 func runWr(id int, c ObjCase, keep string) wrLine {
@@ -346,12 +558,33 @@ func runWr(id int, c ObjCase, keep string) wrLine {
 			meshes = append(meshes, obj.ObjMesh{Name: a.Name, Mesh: buildLattice(a, enc, mats)})
 		}
 	}
-	ln := wrLine{K: "wr", Id: id, Src: []SrcMesh{}, Stmts: []Stmt{}, Rd: []ObsMesh{}}
+	ln := wrLine{K: "wr", Id: id, Src: []SrcMesh{}, Stmts: []Stmt{}, Rd: []ObsMesh{}, Io: objIoName(c)}
+	size, tris := 0, 0
 	for _, m := range meshes {
-		ln.Src = append(ln.Src, projSrc(m.Name, m.Mesh, enc))
+		sm := projSrc(m.Name, m.Mesh, enc)
+		ln.Src = append(ln.Src, sm)
+		size += len(sm.Pos) + len(sm.Uv) + len(sm.Nrm) + len(sm.Idx)/3 + len(sm.Mats) + 1
+		tris += len(sm.Idx) / 3
+	}
+	capStmts, capIdx = 4*size+1000, 3*tris+48
+	mtl := mtlFor(id)
+	dir, objPath, savePath := "", "", ""
+	if c.Io == RdFile || c.Wio == WrFile {
+		var err error
+		if dir, err = caseDir("obj", id); err != nil {
+			infra(err)
+		}
+		defer os.RemoveAll(dir)
+		objPath = filepath.Join(dir, "case.obj")
+		if c.Wio == WrFile && len(meshes) == 1 {
+			savePath = objPath
+		}
+	}
+	if c.Io == RdFile && savePath == "" {
+		mtl = "scene.mtl"
 	}
 	var text []byte
-	ln.Werr, ln.Note, text = writeOut(meshes, mtlFor(id))
+	ln.Werr, ln.Note, text = writeOut(meshes, mtl, c.Wio, savePath)
 	if ln.Werr != "" {
 		return ln
 	}
@@ -359,25 +592,60 @@ func runWr(id int, c ObjCase, keep string) wrLine {
 		_ = os.WriteFile(fmt.Sprintf("%s/case%d.obj", keep, id), text, 0o644)
 	}
 	ln.Stmts = Tokenise(text, enc)
-	ln.Rerr, ln.Note, ln.Rd, _ = readBack(text, enc)
+	if c.Io == RdFile && savePath == "" {
+		if err := os.WriteFile(objPath, text, 0o644); err != nil {
+			infra(err)
+		}
+		if msg, detail := writeMtl(filepath.Join(dir, mtl), meshes); msg != "" {
+			ln.Rerr, ln.Note = msg, "WriteMaterials: "+detail
+			return ln
+		}
+	}
+	ln.Rerr, ln.Note, ln.Rd, _ = readBack(text, enc, c.Io, objPath)
 	return ln
 }
 
 func runLd(id int, c ObjCase, keep string) ldLine {
 	enc := Enc{Mode: c.Enc, Q: c.Q}
-	ln := ldLine{K: "ld", Id: id, Gen: c.Gen, Stmts: []Stmt{}, Rd: []ObsMesh{}, Stmts2: []Stmt{}}
-	text := Render(c.Gen, enc, c.Style)
+	gen := c.Gen
+	if c.Text != nil {
+		gen = sizedText(*c.Text, c.Q)
+	}
+	if gen == nil {
+		gen = []Stmt{}
+	}
+	ln := ldLine{K: "ld", Id: id, Gen: gen, Stmts: []Stmt{}, Rd: []ObsMesh{}, Stmts2: []Stmt{}, Io: objIoName(c)}
+	text := Render(gen, enc, c.Style)
 	if keep != "" {
 		_ = os.WriteFile(fmt.Sprintf("%s/case%d.obj", keep, id), text, 0o644)
 	}
 	ln.Stmts = Tokenise(text, enc)
+	faces := 0
+	for _, st := range gen {
+		if st.T == "f" {
+			faces++
+		}
+	}
+	capStmts, capIdx = 16*len(gen)+1000, 3*faces+48
+	objPath := ""
+	if c.Io == RdFile {
+		dir, err := caseDir("obj", id)
+		if err != nil {
+			infra(err)
+		}
+		defer os.RemoveAll(dir)
+		objPath = filepath.Join(dir, "case.obj")
+		if err := os.WriteFile(objPath, text, 0o644); err != nil {
+			infra(err)
+		}
+	}
 	var got []obj.ObjMesh
-	ln.Rerr, ln.Note, ln.Rd, got = readBack(text, enc)
+	ln.Rerr, ln.Note, ln.Rd, got = readBack(text, enc, c.Io, objPath)
 	if ln.Rerr != "" {
 		return ln
 	}
 	var saved []byte
-	ln.Werr, ln.Note, saved = writeOut(got, mtlFor(id))
+	ln.Werr, ln.Note, saved = writeOut(got, mtlFor(id), c.Wio, "")
 	if ln.Werr != "" {
 		return ln
 	}
@@ -390,7 +658,7 @@ func runLd(id int, c ObjCase, keep string) ldLine {
 
 // RunObjCases executes cases (ndjson) on the real code and writes the trace.
 // keep != "": also leave the OBJ texts in that directory (for replays).
-func RunObjCases(in, out, keep string) error {
+func RunObjCases(in, out, keep string, budgetSeconds int) error {
 	fi, err := os.Open(in)
 	if err != nil {
 		return err
@@ -407,6 +675,8 @@ func RunObjCases(in, out, keep string) error {
 	sc := bufio.NewScanner(fi)
 	sc.Buffer(make([]byte, 1<<20), 1<<28)
 	id := 0
+	defer removeTmp()
+	stop := newStopper(budgetSeconds)
 	for sc.Scan() {
 		if len(sc.Bytes()) == 0 {
 			continue
@@ -415,19 +685,28 @@ func RunObjCases(in, out, keep string) error {
 		if err := json.Unmarshal(sc.Bytes(), &c); err != nil {
 			return fmt.Errorf("case %d: %w", id, err)
 		}
+		setReps(c.Rep)
+		resetCaps()
+		cid := id
+		if c.Cid != nil { // what varies with the case number (material file argument) is the same in a replay
+			cid = *c.Cid
+		}
 		switch c.K {
 		case "wr":
-			if err := encj.Encode(runWr(id, c, keep)); err != nil {
+			if err := encj.Encode(runWr(cid, c, keep)); err != nil {
 				return err
 			}
 		case "ld":
-			if err := encj.Encode(runLd(id, c, keep)); err != nil {
+			if err := encj.Encode(runLd(cid, c, keep)); err != nil {
 				return err
 			}
 		default:
 			return fmt.Errorf("case %d: unknown kind %q", id, c.K)
 		}
 		id++
+		if why := stop.after(); why != "" {
+			return encj.Encode(stopLine{K: "stop", Why: why, Done: id})
+		}
 	}
 	return sc.Err()
 }
